@@ -45,6 +45,8 @@ type CtlConfig struct {
 	IgnoreStatus     bool     `json:"ignoreStatusChanges,omitempty"`
 	Strict           bool     `json:"strict,omitempty"`
 	Etag             bool     `json:"etag,omitempty"`
+	// EmptyRevisionHistory (only without FieldPaths): 1 = an empty revisionHistory block, 2 = an empty fieldPaths list.
+	EmptyRevisionHistory int `json:"emptyRevisionHistory,omitempty"`
 	// SubresourcesFirst: the API server's discovery documents list "<resource>/status" before "<resource>".
 	SubresourcesFirst bool `json:"subresourcesFirst,omitempty"`
 	// RealRelatedInformers: the customize manager creates its related informers lazily
@@ -106,6 +108,11 @@ func (cfg *CtlConfig) CompositeObject(sim *vs.Server) *v1alpha1.CompositeControl
 	cc.Spec.ParentResource.Resource = pd.Resource
 	if len(cfg.FieldPaths) > 0 {
 		cc.Spec.ParentResource.RevisionHistory = &v1alpha1.CompositeControllerRevisionHistory{FieldPaths: cfg.FieldPaths}
+	} else if cfg.EmptyRevisionHistory == 1 {
+		// "revisionHistory: {}" and "fieldPaths: []" mean the same as leaving the block out
+		cc.Spec.ParentResource.RevisionHistory = &v1alpha1.CompositeControllerRevisionHistory{}
+	} else if cfg.EmptyRevisionHistory == 2 {
+		cc.Spec.ParentResource.RevisionHistory = &v1alpha1.CompositeControllerRevisionHistory{FieldPaths: []string{}}
 	}
 	if cfg.ParentSelector != nil {
 		cc.Spec.ParentResource.LabelSelector = cfg.labelSelector(cfg.ParentSelector)
